@@ -165,11 +165,18 @@ def krylov_optimum(A, r, m):
 # monitors
 # --------------------------------------------------------------------------------------
 
+_SOLVE_COUNTER = [0]
+
+
 def solve(R, A, b, *, tol=1e-6, cap=None, prec=None, sparse=False):
     S = R.solver.QGMRESSolver(tol=tol, max_iter=cap, verbose=False, preconditioner=prec)
-    Ain = R.sparse_from_dense(A) if sparse else A.copy()
+    _SOLVE_COUNTER[0] += 1
+    k = _SOLVE_COUNTER[0]
+    # the same system in other memory layouts (Fortran order, strided, transposed view, read-only) on a rotating subset of calls
+    Ain = R.sparse_from_dense(A) if sparse else gen.vary(A, k)
+    bin_ = gen.vary(b, k // 7)
     with np.errstate(all="ignore"):
-        x, info = S.solve(Ain, b.copy())
+        x, info = S.solve(Ain, bin_)
     return x, info
 
 
